@@ -42,9 +42,10 @@ type hmsg struct {
 func b32(seed uint64) []byte { return fill(seed, 32) }
 
 type consGen struct {
-	t   *rapid.T
-	e   *consEnv
-	prs func() (h int64, r int32, polRound int32)
+	t       *rapid.T
+	e       *consEnv
+	prs     func() (h int64, r int32, polRound int32)
+	pending []hmsg // follow-ups of a directed chain, delivered before anything else is drawn
 }
 
 func (g *consGen) height(label string) int64 {
@@ -67,13 +68,15 @@ func (g *consGen) voteType(label string) tmproto.SignedMsgType {
 
 // bitArray draws a protobuf bit array: mostly plausible sizes, and Elems that may or may not fit Bits.
 func (g *consGen) bitArray(natural int, label string) (tmbits.BitArray, bool) {
-	bits := rapid.SampledFrom([]int64{int64(natural), int64(natural), int64(natural), int64(natural) + 1, int64(natural) - 1, 1, 64, 65, 1601, 10000, 10001, 0, -1, math.MaxInt64}).Draw(g.t, label+".bits")
+	// sizes around the node's own array (same words), with MORE words (65, 128, 129, 1601, 10000) and with FEWER (1, 64)
+	bits := rapid.SampledFrom([]int64{int64(natural), int64(natural), int64(natural), int64(natural) + 1, int64(natural) - 1, 1, 64, 65, 65, 128, 129, 1601, 10000,
+		10001, 0, -1, math.MaxInt64}).Draw(g.t, label+".bits")
 	want := 0
 	if bits > 0 && bits < 1<<20 {
 		want = int((bits + 63) / 64)
 	}
 	n := want
-	switch rapid.SampledFrom([]string{"fit", "fit", "fit", "none", "short", "long", "many"}).Draw(g.t, label+".elems") {
+	switch rapid.SampledFrom([]string{"fit", "fit", "fit", "fit", "fit", "fit", "none", "short", "long", "many"}).Draw(g.t, label+".elems") {
 	case "none":
 		n = 0
 	case "short":
@@ -143,14 +146,51 @@ var consKinds = []string{
 	"NewRoundStep", "NewValidBlock", "NewValidBlock", "HasVote", "VoteSetMaj23", "VoteSetBits", "VoteSetBits",
 	"Proposal", "Proposal", "Proposal", "ProposalPOL", "ProposalPOL", "BlockPart", "BlockPart", "Vote", "Vote",
 	"valid-vote", "wrong-channel", "raw-garbage",
+	"chain:proposal-then-POL", "chain:proposal-then-POL",
 }
 
 func (g *consGen) gen() hmsg {
 	t, e := g.t, g.e
+	if len(g.pending) > 0 {
+		m := g.pending[0]
+		g.pending = g.pending[1:]
+		return m
+	}
 	kind := rapid.SampledFrom(consKinds).Draw(t, "kind")
 	m := hmsg{kind: kind}
 	ph, pr, ppol := g.prs()
 	switch kind {
+	case "chain:proposal-then-POL":
+		// What a peer does to make the node track a proof-of-lock bit array of the PEER's choosing: announce (H, R),
+		// send a Proposal for (H, R) with POLRound p != R (any signature: the reactor records it before the state machine
+		// checks it), then ProposalPOL{H, p, bits}. gossipVotesRoutine then subtracts that array from the node's own
+		// prevotes of round p.
+		nrs := e.cs.GetRoundState()
+		hh := rapid.SampledFrom([]int64{e.h, e.h, e.h, ph}).Draw(t, "chain.h")
+		if hh < e.chain.Spec.InitialHeight {
+			hh = e.h
+		}
+		rr := rapid.SampledFrom([]int32{nrs.Round + 1, nrs.Round + 1, nrs.Round, 1, 2, 0}).Draw(t, "chain.r")
+		pol := rapid.SampledFrom([]int32{0, 0, nrs.Round, rr - 1, rr + 1, 1}).Draw(t, "chain.pol")
+		if pol < 0 {
+			pol = 0
+		}
+		lcr := int32(0)
+		if hh == e.chain.Spec.InitialHeight {
+			lcr = -1
+		}
+		first := hmsg{ch: consensus.StateChannel, kind: "chain:NewRoundStep", b: wrapCons(&tmcons.NewRoundStep{Height: hh, Round: rr, Step: 3, LastCommitRound: lcr})}
+		prop := tmproto.Proposal{Type: tmproto.ProposalType, Height: hh, Round: rr, PolRound: pol, Timestamp: time.Unix(1_700_000_100, 0).UTC(),
+			BlockID:   tmproto.BlockID{Hash: b32(rapid.Uint64().Draw(t, "bh")), PartSetHeader: tmproto.PartSetHeader{Total: rapid.SampledFrom(smallTotals).Draw(t, "total"), Hash: b32(7)}},
+			Signature: fill(rapid.Uint64().Draw(t, "sigseed"), 64)}
+		second := hmsg{ch: consensus.DataChannel, kind: "chain:Proposal", b: wrapCons(&tmcons.Proposal{Proposal: prop})}
+		ba, bad := g.bitArray(e.nVals, "pol")
+		third := hmsg{ch: consensus.DataChannel, kind: "chain:ProposalPOL", badBits: bad, b: wrapCons(&tmcons.ProposalPOL{Height: hh, ProposalPolRound: pol, ProposalPol: ba})}
+		for _, x := range []*hmsg{&first, &second, &third} {
+			x.valid = consDecodes(x.b)
+		}
+		g.pending = append(g.pending, second, third)
+		return first
 	case "NewRoundStep":
 		m.ch = consensus.StateChannel
 		m.b = wrapCons(&tmcons.NewRoundStep{Height: g.height("h"), Round: g.round("r"),
@@ -210,7 +250,7 @@ func (g *consGen) gen() hmsg {
 		}
 		total := rapid.SampledFrom(hugeTotals).Draw(t, "total")
 		m.bigTotal = total > types.MaxBlockPartsCount
-		pol := rapid.SampledFrom([]int32{-1, -1, 0, rr - 1, rr, math.MaxInt32, -2}).Draw(t, "pol")
+		pol := rapid.SampledFrom([]int32{-1, -1, 0, 0, rr - 1, rr, rr + 1, 1, math.MaxInt32, -2}).Draw(t, "pol")
 		p := tmproto.Proposal{Type: tmproto.ProposalType, Height: hh, Round: rr, PolRound: pol,
 			BlockID:   tmproto.BlockID{Hash: b32(rapid.Uint64().Draw(t, "bh")), PartSetHeader: tmproto.PartSetHeader{Total: total, Hash: b32(rapid.Uint64().Draw(t, "ph"))}},
 			Timestamp: time.Unix(1_700_000_100, 0).UTC()}
@@ -302,7 +342,7 @@ func (g *consGen) gen() hmsg {
 			// only prevotes of the current round from a validator that has not voted, and never a third one: the node
 			// must not be pushed over a 2/3 threshold by this harness-made "valid input" (keeps the fixture simple)
 			pv := rs.Votes.Prevotes(rs.Round)
-			if pv == nil || pv.BitArray().GetIndex(vi) || vi == e.nodeVal || countTrue(pv.BitArray().String()) >= 2 {
+			if pv == nil || pv.BitArray().GetIndex(vi) || vi == e.nodeVal || countTrue(pv.BitArray().String())+2 > e.quorum() {
 				kind, m.kind = "Vote", "Vote"
 			} else {
 				v := e.signedVote(vi, tmproto.PrevoteType, rs.Round, bid, true)
@@ -359,7 +399,7 @@ func consDecodes(b []byte) (ok bool) {
 	return err == nil
 }
 
-var peerKinds = []string{"fresh", "same", "same", "same-other-round", "lag1", "lagN", "ahead"}
+var peerKinds = []string{"fresh", "same", "same", "same-other-round", "same-other-round", "lag1", "lagN", "ahead"}
 
 // genPeerState brings the PeerState of p into a generated state with valid messages only.
 func genPeerState(t *rapid.T, e *consEnv, p *hpeer) string {
@@ -423,7 +463,8 @@ func genPeerState(t *rapid.T, e *consEnv, p *hpeer) string {
 
 func TestHostileConsensus(t *testing.T) {
 	rapid.Check(t, func(t *rapid.T) {
-		nVals := 4
+		// mostly 4 validators (1-word bit arrays); sometimes 70 (2 words), so that peer arrays can also have FEWER words
+		nVals := rapid.SampledFrom([]int{4, 4, 4, 4, 4, 4, 4, 70}).Draw(t, "nvals")
 		nodeVal := rapid.SampledFrom([]int{-1, 0, 1, 2, 3}).Draw(t, "nodeval")
 		nBlocks := rapid.IntRange(1, 3).Draw(t, "blocks")
 		e := newConsEnv(t, nVals, nBlocks, nodeVal, 1)
@@ -486,9 +527,8 @@ func TestHostileConsensus(t *testing.T) {
 				t.Fatalf("node's own consensus state changed by %s (valid=%v) from a non-validator peer:\nbefore %s\nafter  %s", m.kind, m.valid, before, after)
 			}
 			// (4) the per-peer routines must survive what the peer state now contains
-			if rapid.IntRange(0, 3).Draw(t, "settle") == 0 || i == n-1 {
-				e.settle(p)
-			}
+			// after EVERY message each of gossipData / gossipVotes / queryMaj23 goes round its loop at least twice
+			e.settle(p)
 			if pn := e.routinePanic(); pn != "" {
 				lib.Class("TestHostileConsensus", "ROUTINE-PANIC-after:"+m.kind)
 				if lib.IsKnown(findBitArray) && strings.Contains(pn, "bits.(*BitArray)") {
@@ -511,7 +551,7 @@ func TestHostileConsensus(t *testing.T) {
 			}
 		}
 		nontrivial := hostileValid > 0
-		lib.Case("TestHostileConsensus", lib.FP(state, pkind, nodeVal, kinds), nontrivial, "node:"+state, "peer:"+pkind)
+		lib.Case("TestHostileConsensus", lib.FP(state, pkind, nodeVal, nVals, kinds), nontrivial, "node:"+state, "peer:"+pkind, fmt.Sprintf("validators:%d", nVals))
 		if nontrivial && lib.WantSample("TestHostileConsensus") {
 			lib.Sample("TestHostileConsensus", map[string]interface{}{"node": state, "peer": pkind, "messages": sample})
 		}
